@@ -360,7 +360,13 @@ Verdict IoEngine::exec_local(const Plan& plan, const std::string& B, const std::
       if (o.kind == "parser") {
         long nl = 1; for (char c : W) if (c == '\n') nl++;
         if (o.line < 1 || o.line > nl + 1) return Verdict::fail(fmt("C11:%s:pipeline", o.line < 1 ? "refusal-without-line" : "line-out-of-range"), 0, fmt("result reader names line %ld (%ld lines written by this run): %s", o.line, nl, o.what.c_str()));
-        if (mode == 0 && !va.refused && A.exit_code == 0) { st.add("pipeline_own_output_refused"); if (getenv("VERIF_PIPE_GATING")) return Verdict::fail("C11:pipeline:own-output-refused:" + iotargets::slug(o.what), 0, fmt("line %ld: %s", o.line, o.what.c_str())); }
+        if (mode == 0 && !va.refused && A.exit_code == 0) {
+          st.add("pipeline_own_output_refused");
+          // The XML result document of a successful run is the reference instance of the documented result format:
+          // read_xml refusing it is clause 4 (a document that follows the grammar is refused).  For HTML this is only
+          // counted: read_html reads English reports only, and gama-local writes them in eleven languages.
+          if (!html || getenv("VERIF_PIPE_GATING")) return Verdict::fail("C11:pipeline:own-output-refused:" + iotargets::slug(o.what), 0, fmt("line %ld: %s", o.line, o.what.c_str()));
+        }
       } else if (o.kind != "ok" && o.kind != "resource")
         return Verdict::fail(fmt("C11:refusal-without-line:pipeline:%s", o.kind.c_str()), 0, o.what);
       else if (mode == 0) st.add("pipeline_own_output_accepted");
@@ -603,12 +609,13 @@ Plan IoEngine::generate(uint64_t seed, uint64_t index, const std::string& tier)
     // of every kind between them; a few of the observations refer to points that were never declared
     p.set("synth", "gkf"); p.set("name", "synthetic-gkf"); p.set("target", "local");
     if (g.chance(1, 4)) p.seti("klat", (long long)g.range(1, 2));      // latitude (and ellipsoid) given: observations are reduced to the ellipsoid
-    { int xf = -1; p.set("args", g.chance(2, 3) ? std::string("- --xml -") : gen_args(g, xf)); p.seti("xmlfile", xf); }
+    // a third of the networks go through EVERY writer
+    { int xf = -1; int w = (int)g.below(3); p.set("args", w == 0 ? std::string("- --xml -") : w == 1 ? gen_args(g, xf) : std::string("- --text @F0 --html @F1 --xml @F2 --svg @F3 --octave @F4 --export @F5")); if (w == 2) xf = 2; p.seti("xmlfile", xf); }
     auto stk = [&](const char* op, std::initializer_list<long long> a) { Step s; s.op = op; s.a = a; p.steps.push_back(s); };
     int nfix = (int)g.range(2, 3), nnew = (int)g.range(1, 3), np = nfix + nnew;
     bool tidy = g.chance(2, 3);
-    for (int i = 0; i < nfix; i++) stk("kp", {i, tidy ? 0 : (long long)g.below(7), tidy ? 0 : (long long)g.below(4)});
-    for (int i = nfix; i < np; i++) stk("kp", {i, tidy ? 1 : (long long)g.below(7), g.chance(2, 3) ? 1 : (long long)g.below(4)});
+    for (int i = 0; i < nfix; i++) stk("kp", {i, tidy ? 0 : (long long)g.below(7), tidy ? 0 : (long long)g.below(4) + (g.chance(1, 10) ? 4 + 16 * (long long)g.below(2) : 0)});
+    for (int i = nfix; i < np; i++) stk("kp", {i, tidy ? 1 : (long long)g.below(7), (g.chance(2, 3) ? 1 : (long long)g.below(4)) + (!tidy && g.chance(1, 10) ? 4 + 16 * (long long)g.below(2) : 0)});
     int ncl = (int)g.range(2, 5);
     for (int c = 0; c < ncl; c++) {
       long long from = (long long)g.below(np); int no = (int)g.range(1, 4);
